@@ -43,10 +43,19 @@ def _block_comment(ch):
     # no comment terminator and no nested opener inside (documentation is ambiguous about nesting)
     while "*/" in body or "/*" in body:
         body = body.replace("*/", "* /").replace("/*", "/ *")
-    if body.endswith("/") or body.endswith("*"):
-        body += " "
-    if body.startswith("/") or body.startswith("*"):
-        body = " " + body
+    # bodies may start or end with '/' or '*' ( /*/ toggled /*/ , /** doc **/ , /*//////// banner */ ): the comment still ends
+    # at the first */ that follows the opening /*
+    k = ch.below(8)
+    if k == 0:
+        body = "/" + body
+    elif k == 1:
+        body = "/" + body + "/"
+    elif k == 2:
+        body = "*" + body + "*"
+    elif k == 3:
+        body = "//////" + body
+    while "*/" in body or "/*" in body:
+        body = body.replace("*/", "* /").replace("/*", "/ *")
     return "/*" + body + "*/"
 
 
@@ -248,7 +257,7 @@ def mutate_chars(draw, text):
         if not text:
             break
         i = draw(st.integers(0, len(text) - 1))
-        kind = draw(st.sampled_from(["char-delete", "char-insert", "char-transpose", "char-replace"]))
+        kind = draw(st.sampled_from(["char-delete", "char-insert", "char-transpose", "char-replace", "ws-insert", "ws-delete"]))
         if kind == "char-delete":
             text = text[:i] + text[i + 1:]
         elif kind == "char-insert":
@@ -257,6 +266,15 @@ def mutate_chars(draw, text):
             text = text[:i] + text[i + 1] + text[i] + text[i + 2:]
         elif kind == "char-replace":
             text = text[:i] + draw(st.sampled_from(alphabet)) + text[i + 1:]
+        elif kind == "ws-insert":
+            # whitespace-only edits: a blank inside a token (de f, weighted 1 1 vs 11)
+            text = text[:i] + draw(st.sampled_from([" ", "\n", "\t"])) + text[i:]
+        elif kind == "ws-delete":
+            ws = [j for j, c in enumerate(text) if c.isspace()]
+            if not ws:
+                continue
+            j = ws[draw(st.integers(0, len(ws) - 1))]
+            text = text[:j] + text[j + 1:]
         else:
             continue
         kinds.append(kind)
